@@ -33,8 +33,8 @@ class C24(Property):
     props_files = ["SFV/Props/C24.lean"]
     drivers = ["Drivers/C24.lean"]
     translators = [cmdtmpl.generate]
-    quick_budget_s = 300
-    op_timeout = 8
+    quick_budget_s = 600
+    op_timeout = 25
     rule = ("random trees (names with blanks, quotes, $, backticks, glob characters, unicode, leading dashes, newlines; symlinks; contents with "
             "leading/trailing whitespace) are created twice; random sequences of the 16 path operations are executed through LocalStreamFlowPath on "
             "one copy and through RemoteStreamFlowPath over a persistent-sh connector (MiniConnector) on the other; after every operation the "
@@ -68,6 +68,8 @@ class C24(Property):
             self.by_op.setdefault(r["op"], []).append(r)
         self.lines: list[str] = []
         self.expect: list = []
+        self.fs_lines: list[str] = []
+        self.fs_expect: list = []
         self.nseq = 0
 
     def op_quoted(self, op: str) -> bool:
@@ -88,6 +90,7 @@ class C24(Property):
         context.deployment_manager.deployments_map["c24remote"] = conn
         loc = ExecutionLocation(name="loc0", deployment="c24remote", local=False)
         plan = ops if ops is not None else self.plan(rng, entries, tame, nops)
+        self.custom_plan = ops is not None
         state = {"i": 0}
 
         def lpath(rel):
@@ -150,6 +153,7 @@ class C24(Property):
             import asyncio as aio
             from sfv.rt.shfake import kill_leftovers
             try:
+                pre = snapshot(lroot)
                 for op in plan:
                     holder["conn"].commands.clear()
                     lres = await apply(lpath, lroot, op)
@@ -166,8 +170,12 @@ class C24(Property):
                     else:
                         rres = task.result()
                         cmds = list(holder["conn"].commands)
+                    if not self.op_quoted(op["op"]) and not is_safe(os.path.join(rroot, op["path"])):
+                        # an unquoted `&` starts a background job, `;` a second command: let their effects land before looking
+                        await aio.sleep(0.7)
                     ls, rs = snapshot(lroot), snapshot(rroot)
-                    results.append((op, lres, rres, cmds, ls, rs))
+                    results.append((op, lres, rres, cmds, ls, rs, pre))
+                    pre = ls
                     if ls != rs:
                         # re-synchronise so that later operations are judged on equal trees again
                         shutil.rmtree(rroot, ignore_errors=True)
@@ -198,8 +206,10 @@ class C24(Property):
                 run_watchdog(context.close, 10)
             except Exception:  # noqa: BLE001
                 pass
-        for op, lres, rres, cmds, lsnap, rsnap in results:
+        for op, lres, rres, cmds, lsnap, rsnap, pre in results:
             self.judge(ctx, tame, seq_seed, plan, op, lres, rres, cmds, lsnap, rsnap, rroot)
+            if tame and op["op"] == "mkdir" and rres != ["hang"]:
+                self.fs_model_case(op, lres, rres, lsnap, rsnap, pre)
         shutil.rmtree(base, ignore_errors=True)
 
     def plan(self, rng, entries: list[str], tame: bool, nops: int) -> list[dict]:
@@ -257,6 +267,8 @@ class C24(Property):
         if lres == rres and not d:
             return
         replay = {"op": "sequence", "tame": tame, "seq_seed": seq_seed, "upto": plan.index(op) + 1}
+        if getattr(self, "custom_plan", False):
+            replay["plan"] = plan[: plan.index(op) + 1]
         detail = (f"{name}({rel!r}, {a if name != 'write_text' else {'data': a['data'][:30]}}): local -> {_short(lres)}, remote -> {_short(rres)}"
                   + (f"; trees differ: {d[:2]}" if d else ""))
         ctx.fail(self.classify(name, rel, a, lres, rres, d, special, lsnap), detail, replay)
@@ -329,6 +341,23 @@ class C24(Property):
             return "write_text:differs"
         return f"{name}:differs"
 
+    def fs_model_case(self, op, lres, rres, lsnap, rsnap, pre) -> None:
+        """mkdir on the Lean file-system model (no symlinks) vs what the local API and the remote command really did"""
+        comps = [c for c in op["path"].split("/") if c]
+        if not comps or any(v[0] == "l" for v in pre.values()):
+            return
+        dirs = [k for k, v in pre.items() if k and v[0] == "d"]
+        files = [k for k, v in pre.items() if k and v[0] == "f"]
+        a = op.get("args", {})
+        self.fs_lines.append(f"fsmkdir {int(a.get('parents', False))} {int(a.get('exist_ok', False))} {hx(op['path'])} D " +
+                             " ".join(hx(d) for d in dirs) + " F " + " ".join(hx(f) for f in files))
+
+        def bits(res, snap):
+            if res == ["error"]:
+                return "error"
+            return "ok " + "".join("1" if snap.get("/".join(comps[: i + 1]), ("",))[0] == "d" else "0" for i in range(len(comps)))
+        self.fs_expect.append((f"L {bits(lres, lsnap)} R {bits(rres, rsnap)}", {"op": op, "dirs": dirs[:10], "files": files[:10]}))
+
     def check_templates(self, ctx, name, full, a, cmds, rroot) -> None:
         variants = self.by_op.get(name if name != "is_executable" else name, [])
         if not variants or not cmds:
@@ -355,6 +384,8 @@ class C24(Property):
 
     # ------------------------------------------------------------------------------------------------------------
     def explore(self, ctx: Ctx) -> None:
+        from sfv.rt.shfake import limit_failures
+        limit_failures(ctx)
         self._setup(ctx)
         rng = ctx.rng
         big = ctx.tier == "thorough" or ctx.mode == "search"
@@ -365,6 +396,15 @@ class C24(Property):
                 ctx.extra["incomplete"] = True
                 break
             self.run_sequence(ctx, tame=i < n_tame, seq_seed=rng.randrange(1 << 30), nops=12 if big else 10)
+        # mkdir-focused tame sequences: every flag combination on short paths over a tiny alphabet (ties the Lean FS model of mkdir)
+        for _ in range(6 if big else 2):
+            r2 = rng.randrange(1 << 30)
+            import random as _random
+            g = _random.Random(r2)
+            plan = [{"op": "mkdir", "path": "/".join(g.choice(["a", "b", "c1"]) for _ in range(g.randint(1, 3))),
+                     "args": {"mode": 0o755, "parents": g.random() < 0.5, "exist_ok": g.random() < 0.5}} for _ in range(10)]
+            plan.insert(3, {"op": "write_text", "path": "b", "args": {"data": "x"}})
+            self.run_sequence(ctx, tame=True, seq_seed=r2, ops=plan)
         got = ctx.lean("Drivers/C24.lean", self.lines) if self.lines else []
         pos = 0
         for name, real, nv, sample in self.expect:
@@ -373,6 +413,11 @@ class C24(Property):
             if hx(real) not in outs:
                 ctx.disagree(f"template of RemoteStreamFlowPath.{name}", f"real command {real!r} is not the rendering of any extracted variant "
                              f"{[unhx(o) if o != 'bad-op' else o for o in outs]}", sample)
+        if self.fs_lines:
+            for g, (e, sample) in zip(ctx.lean("Drivers/C24.lean", self.fs_lines), self.fs_expect):
+                ctx.count("fs-model:mkdir")
+                if g != e:
+                    ctx.disagree("FS model of mkdir (local API / remote command)", f"real {e!r}, Lean model {g!r}", sample)
         ctx.extra["templates"] = {r["lean"]: ("quoted" if r["quoted"] else "NOT-quoted") for r in self.table if r["via"] != "env"}
 
     def replay(self, ctx: Ctx, data) -> None:
@@ -386,7 +431,7 @@ class C24(Property):
             base = os.path.join(ctx.scratch, "plan-only")
             make_tree(rng, base, max_entries=rng.choice([3, 8, 15]), nasty=0.0 if r["tame"] else 0.6, symlinks=not r["tame"])
             entries = [k for k in snapshot(base) if k]
-            plan = self.plan(rng, entries, r["tame"], 12)[: r["upto"]]
+            plan = r["plan"] if r.get("plan") else self.plan(rng, entries, r["tame"], 12)[: r["upto"]]
             print("tree :", entries)
             print("plan :", plan)
             n0 = len(ctx.failures)
